@@ -306,7 +306,10 @@ def writearlpackedbit(infile, path):
 
     for ti, (time, thead) in enumerate(zip(times, theads)):
         for propk in thead.dtype.names:
-            if propk in ('NX', 'NY', 'NZ'):
+            if propk in ('NX', 'NY'):
+                # the thousands travel in the GRID characters of the label
+                thead[propk] = '%3d' % (props[propk] % 1000)
+            elif propk == 'NZ':
                 thead[propk] = '%3d' % props[propk]
             elif propk == 'LENH':
                 thead[propk] = '%4d' % datamap['vardef'][ti].itemsize
